@@ -292,6 +292,7 @@ func VerifC04_QueueScanReachesEveryChannel() {
 	n := verifShellNSQD(o)
 	verifrt.StubNative("(*github.com/nsqio/nsq/nsqd.NSQD).Notify", verifNotifyNop)
 	verifrt.Preemptions(0)
+	verifrt.FreeRun() // native replays wait for the real scanner themselves (canonical schedule only)
 	if verifrt.Symbolic() {
 		verifScanInterval = o.QueueScanInterval
 		verifScanTick, verifRefreshTick = make(chan time.Time), make(chan time.Time)
@@ -389,3 +390,107 @@ func verifC04Defaults() {
 // A timed-out message is delivered again right after the timeout to a consumer that has RDY
 // credit for it (the timeout wakes the delivery pump; shared with C03).
 func VerifC04_PumpHistoryRedeliversTimeouts() { verifPumpHistory() }
+
+// REQ with ANY numeric delay under max-req-timeout settings below and above max-msg-timeout: the
+// message comes back after exactly min(delay, max-req-timeout) - immediately for 0 - measured from
+// the REQ; the limit that applies is max-req-timeout, not any other option.
+func VerifC04_ReqDelayClamp() { verifrt.Atomic(verifC04ReqClamp) }
+
+func verifC04ReqClamp() {
+	o := verifOpts()
+	o.MaxMsgTimeout = 15 * time.Minute
+	o.MaxReqTimeout = []time.Duration{time.Second, time.Hour}[verifrt.Choice("max-req-timeout", 2)]
+	verifConcreteIDs, verifIDSeq = true, 0
+	st := verifNewChan(o, "ch")
+	cl := st.addClient(1)
+	st.populate(1, 0, 0, 0, 1)
+	held := st.inFlight[0]
+	ms, digits := verifNumber("delayMs")
+	verifrt.Assume(ms <= 1<<42)
+	id := held.ID
+	p := &protocolV2{nsqd: st.n}
+	_, err := p.REQ(cl, [][]byte{[]byte("REQ"), id[:], digits})
+	verifrt.Assert(err == nil, "req-by-the-holder-is-accepted")
+	want := time.Duration(ms) * time.Millisecond
+	if want > o.MaxReqTimeout {
+		want = o.MaxReqTimeout
+	}
+	w := st.locate(id)
+	if want == 0 {
+		verifrt.Assert(w.memory+w.backend == 1 && w.deferred == 0 && w.inFlight == 0, "req-0-requeues-at-once")
+	} else {
+		item, ok := st.c.deferredMessages[id]
+		verifrt.Assert(ok && w.total() == 1, "delayed-req-is-deferred-once")
+		if ok {
+			verifrt.Assert(item.Priority == verifrt.LastNow()+int64(want), "req-delay-is-min-of-requested-and-max-req-timeout")
+		}
+	}
+	verifrt.Reach("clamped-to-max-req-timeout-below-max-msg-timeout", o.MaxReqTimeout == time.Second && ms > 1000)
+	verifrt.Reach("delay-between-max-msg-timeout-and-max-req-timeout-kept", o.MaxReqTimeout == time.Hour && ms > 900000 && ms < 3600000)
+}
+
+// The queue scanner follows channel churn: a channel that is deleted and another one created
+// (same number of channels) is picked up at the next refresh of the scanner's channel list and
+// its due messages are released (real queueScanLoop + worker, one channel, selection count 1).
+func VerifC04_QueueScanFollowsChannelChurn() {
+	o := verifOpts()
+	o.MemQueueSize = 2
+	o.QueueScanInterval = 20 * time.Millisecond
+	o.QueueScanRefreshInterval = 500 * time.Millisecond
+	o.QueueScanSelectionCount = 1
+	o.QueueScanWorkerPoolMax = 1
+	o.QueueScanDirtyPercent = 0.25
+	n := verifShellNSQD(o)
+	verifrt.StubNative("(*github.com/nsqio/nsq/nsqd.NSQD).Notify", verifNotifyNop)
+	verifrt.Preemptions(0)
+	verifrt.FreeRun() // native replays wait for the real scanner themselves (canonical schedule only)
+	if verifrt.Symbolic() {
+		verifScanInterval = o.QueueScanInterval
+		verifScanTick, verifRefreshTick = make(chan time.Time), make(chan time.Time)
+		verifrt.Stub("time.NewTicker", verifScanTickerStub)
+		verifrt.Stub("(*time.Ticker).Stop", verifTickerStopStub)
+	}
+	var t *Topic
+	due := func(c *Channel, tag string) *Message {
+		m := verifMsg(tag, 1)
+		c.StartDeferredTimeout(m, 0)
+		c.deferredMessages[m.ID].Priority = 1
+		return m
+	}
+	verifrt.Atomic(func() {
+		verifConcreteIDs, verifIDSeq = true, 0
+		t = NewTopic("t", n, func(*Topic) {})
+		n.topicMap["t"] = t
+		t.Start()
+		t.GetChannel("a")
+	})
+	go n.queueScanLoop()
+	verifrt.Rest()
+	// churn: a goes, b comes (the number of channels is the same as before)
+	var b *Channel
+	var mb *Message
+	// natively the churn happens back to back, well inside one refresh interval, so that no
+	// refresh observes the moment without channels
+	t.DeleteExistingChannel("a")
+	if verifrt.Symbolic() {
+		verifrt.Rest()
+	}
+	b = t.GetChannel("b")
+	if verifrt.Symbolic() {
+		verifrt.Rest()
+	}
+	mb = due(b, "due-b")
+	if verifrt.Symbolic() {
+		verifRefreshTick <- time.Time{}
+		verifrt.Rest()
+		verifScanTick <- time.Time{}
+	} else {
+		time.Sleep(1200 * time.Millisecond)
+	}
+	verifrt.Rest()
+	_, stillDeferred := b.deferredMessages[mb.ID]
+	verifrt.Assert(!stillDeferred && b.Depth() == 1, "re-created-channel-is-scanned-after-the-next-refresh")
+	verifrt.Reach("churned-channel-scanned", !stillDeferred)
+	close(n.exitChan)
+	verifrt.Rest()
+}
